@@ -1,3 +1,15 @@
+#[cfg(feature = "hooks")]
+pub mod c07;
+#[cfg(feature = "hooks")]
+pub mod c40;
+
 pub fn all() -> Vec<&'static dyn simcore::Property> {
-    vec![]
+    #[allow(unused_mut)]
+    let mut v: Vec<&'static dyn simcore::Property> = vec![];
+    #[cfg(feature = "hooks")]
+    {
+        v.push(&c07::C07);
+        v.push(&c40::C40);
+    }
+    v
 }
